@@ -130,10 +130,14 @@ def main(ctx, replay=None):
     records = []
     nsamp = 0
     try:
-        for _, mode, has_table, with_sys, with_mass, ntv, has_density, rowrule, sample, stride, nrows_spec in picks:
+        prev_d = None
+        for pn, (_, mode, has_table, with_sys, with_mass, ntv, has_density, rowrule, sample, stride, nrows_spec) in enumerate(picks):
             system = str(rng.choice(["hexagonal", "cubic", "tetragonal6", "orthorhombic", "trigonal6"])) if with_sys else None
             sc = StaticCase(rng, exports, system)
-            d = Path(tempfile.mkdtemp(dir=tmp))
+            # every third invocation works on the files of the one before it, rewritten in place (same paths, other material, same process)
+            same_paths = bool(pn % 3 == 2 and prev_d is not None)
+            d = prev_d if same_paths else Path(tempfile.mkdtemp(dir=tmp))
+            prev_d = d
             if with_sys:
                 # supply a sufficient subset only: the nine orthotropic ones that do not vanish plus what else is independent
                 supplied = sc.nonvan
@@ -167,7 +171,8 @@ def main(ctx, replay=None):
             if sample > 0:
                 # as a user types it: a decimal number that is `sample` times delta_p (the floating-point quotient may fall on either side)
                 args += ["--delta-p-sample", repr(round(sample * (dp if mode == "pressure" else 1.0), 6))]
-            case = {"mode": mode, "table": has_table, "system": system, "cellmass": with_mass, "ntv": ntv, "sample": sample, "volume_order": sc.order}
+            case = {"mode": mode, "table": has_table, "system": system, "cellmass": with_mass, "ntv": ntv, "sample": sample, "volume_order": sc.order,
+                    "same_paths_as_previous": same_paths}
             ctx.count(case, nontrivial=has_table or mode != "none")
             sig = {"mode": mode, "table": has_table}
             r = CliRunner().invoke(static_main, args)
